@@ -8,6 +8,7 @@ mod engine;
 mod props;
 mod render;
 mod seqmc;
+mod tape;
 mod util;
 
 use engine::*;
@@ -72,6 +73,7 @@ fn registry() -> Vec<PropDef> {
     vec![
         prop!("C01", c01),
         prop!("C02", c02),
+        prop!("C03", c03),
         prop!("C06", c06),
         prop!("C08", c08),
         prop_bfs!("C11", c11),
